@@ -27,7 +27,7 @@ class QuietUtils : public mp::NLUtils {
   void myexit(const std::string& msg) override { throw std::runtime_error("NLUtils::myexit: " + msg); }
 };
 
-struct WriterOpts { bool binary = false; bool comments = false; bool bounds_first = true; int colsizes = 1; };
+struct WriterOpts { bool binary = false; bool comments = false; bool bounds_first = true; int colsizes = 1; int precision = 0; };
 
 mp::NLHeader make_header(const Model& m, const WriterOpts& w) {
   mp::NLHeader h;
@@ -78,7 +78,7 @@ class IrFeeder : public mp::NLFeeder<IrFeeder, const Ex*> {
 
   mp::NLHeader Header() { return make_header(m, w); }
   bool WantNLComments() const { return w.comments; }
-  int OutputPrecision() const { return 0; }
+  int OutputPrecision() const { return w.precision; }     // 0: shortest exact form; >= 17 asks for all digits explicitly (fewer would be lossy by request)
   bool WantBoundsFirst() const { return w.bounds_first; }
   int WantColumnSizes() const { return w.colsizes; }
 
@@ -325,6 +325,7 @@ Json generate(const std::string& tier, uint64_t seed, uint64_t index) {
   w.set("comments", rng.chance(0.5));
   w.set("bounds_first", rng.chance(0.5));
   w.set("colsizes", (long)(rng.chance(0.6) ? 1 : rng.chance(0.6) ? 2 : 0));
+  if (rng.chance(0.2)) { static const long pr[] = {17, 18, 19, 25, 30}; w.set("precision", pr[rng.below(5)]); }
   sc.set("writer", w);
   sc.set("read_flags", (long)rng.below(2));
   // the receiving handler: takes everything, or wants a single objective (NeedObj), as a driver with objno=k does
@@ -372,6 +373,8 @@ sim::RunResult run(const Json& sc) {
   WriterOpts w;
   w.comments = sc["writer"]["comments"].as_bool(); w.bounds_first = sc["writer"]["bounds_first"].as_bool(true);
   w.colsizes = (int)sc["writer"]["colsizes"].as_int(1);
+  w.precision = (int)sc["writer"]["precision"].as_int(0);
+  if (w.precision) bump(st, "opt.precision_given");
   int flags = (int)sc["read_flags"].as_int(0);
   sim::clean_scratch();
   Json nofaults = Json::array();
